@@ -254,4 +254,5 @@ func runC09(e *Engine, r *Report) {
 	ruleTanIndexState(e, r)
 	ruleTanFileInUse(e, r)
 	ruleLastBatchCache(e, r)
+	ruleLogReaderRebase(e, r)
 }
